@@ -46,6 +46,10 @@ def cases(tier, seed):
         for via in ("disk", "virtual"):
             for sizes in ([3], [1, 2]):
                 yield {"k": "fill", "sizes": sizes, "exact": False, "fill": "default", "via": via, "ext": ext}
+    # names that start with a blank, and the blank name a cassette file may carry (stored as eight spaces)
+    for nameset in ("blank", "space"):
+        for via in ("disk", "virtual"):
+            yield {"k": "fill", "sizes": [5], "exact": False, "fill": "default", "via": via, "nameset": nameset}
     # file_util --to_dsk --append onto a disk with F free granules: a batch that fits is stored; a batch of which a LATER file does
     # not fit is refused as a whole - the host image stays as it was
     for skind in ("cas", "dsk"):
@@ -118,6 +122,8 @@ def check_case(case):
             cell += "|{}{:+d}".format(case["kind"], case["delta"])
         if "ext" in case:
             cell += "|ext={}".format(case["ext"] or "none")
+        if "nameset" in case:
+            cell += "|names=" + case["nameset"]
         sizes = itertools.cycle(case["sizes"])
         td = None
         try:
@@ -133,7 +139,8 @@ def check_case(case):
             while steps < 90:
                 k = next(sizes)
                 n = (k * 2304 - 10) if case["exact"] else (k * 2304 - 10 - 7)
-                s = c07.fspec("ML", n, "F{}".format(steps), case.get("ext", "BIN"))
+                fname = "F{}".format(steps) if "nameset" not in case else "" if case["nameset"] == "blank" else " F{}".format(steps)
+                s = c07.fspec("ML", n, fname, case.get("ext", "BIN"))
                 if "kind" in case:      # stream length = k granules + delta bytes
                     s = c07.fspec(case["kind"], k * 2304 - c07.HDR[case["kind"]] + case["delta"], "F{}".format(steps), "DAT")
                 if n > 65535:       # a machine-language file cannot exceed its 16-bit length field; use a headerless file of the same stream length
@@ -283,7 +290,7 @@ def check_case(case):
 
 def describe(tier):
     return {
-        "alphabet": "fill histories: files of k granules (k=1..34), alternating sizes (k1,k2<=6), exact-multiple stream lengths, names without or with a short extension, file_util --to_dsk --append batches onto disks with 1-4 free granules (all-or-nothing), after the first refusal the same object must be unchanged and still take a 1-granule and an empty file if they fit, under " +
+        "alphabet": "fill histories: files of k granules (k=1..34), alternating sizes (k1,k2<=6), exact-multiple stream lengths, names without or with a short extension, blank names and names starting with a blank, file_util --to_dsk --append batches onto disks with 1-4 free granules (all-or-nothing), after the first refusal the same object must be unchanged and still take a 1-granule and an empty file if they fit, under " +
                     ("all 72" if tier == "thorough" else "10") + " fill orders, via DiskFile.add_file and via VirtualFile append on a host file; synthetic "
                     "images; files of every kind (ML/BASIC/ASCII/DATA: different header and trailer sizes) whose stored stream is k granules +-0,1,2 bytes; synthetic "
                     "images (independent writer) with F free granules for every F in 0..68 at 4 placements and 0/1/2/69/70/71/72 live directory entries",
